@@ -1,6 +1,9 @@
 import SSV.Model.Pipe
 import SSV.Model.PipeShape
 import SSV.Proofs.Pipe
+import SSV.Proofs.PipeLive
+import SSV.Proofs.PipeStable
+import SSV.Proofs.PipeExamples
 import SSV.Gen.C15
 /-
 C15 — the in-memory pipe (netio/pipe.go) is a faithful duplex stream with half-close and deadlines.
@@ -122,6 +125,211 @@ theorem handshake_paired {s : State} (r : Reachable s) (i : Nat) (k : RKind) (ac
   rw [hj] at hj'; simp only [Option.some.injEq, Prod.mk.injEq] at hj'
   exact hj'.1.symm
 
+/-! ### progress (stated as safety: what is enabled in every reachable state) -/
+
+/-- NO STUCK STATE: in every reachable state every thread that is inside a call either can move right now,
+or sits in a `select` that has a `done` and a `deadline` alternative — and then it can move as soon as `done`
+is closed, as soon as the cancel channel it waits on is closed, or as soon as a partner sits in the matching
+select — or waits for `wrMu`, whose holder is another thread inside the write loop (itself subject to this
+theorem).  The committed hand-shake (`rAck` / `wAwait`) always has its partner at the matching point, so it
+falls under "can move right now". -/
+theorem no_stuck_state {s : State} (r : Reachable s) (i : Nat) :
+    match s.thr i with
+    | .idle | .rRet .. | .wRet .. | .uRet .. => True
+    | .rSel k _ g =>
+        (Alt.done ∈ k.sel ∧ Alt.deadline ∈ k.sel) ∧ (s.done = true → CanMove s i) ∧
+        (s.rdl.chanClosed g = true → CanMove s i) ∧
+        (∀ j b n ci gw, s.thr j = .wSel b n ci gw → CanMove s i)
+    | .wSel _ _ _ g =>
+        (Alt.done ∈ writeSelect ∧ Alt.deadline ∈ writeSelect) ∧ (s.done = true → CanMove s i) ∧
+        (s.wdl.chanClosed g = true → CanMove s i) ∧
+        (∀ j k acc gr, s.thr j = .rSel k acc gr → CanMove s i)
+    | .wLock _ => CanMove s i ∨ ∃ j, j ≠ i ∧ s.mu = some j ∧ (s.thr j).holds = true
+    | _ => CanMove s i := by
+  have inv := inv_reachable r
+  have loc := local_enabled inv i
+  cases hp : s.thr i <;> simp only [hp] at loc ⊢ <;> (try trivial) <;> (try exact Or.inl loc)
+  case rSel k acc g =>
+    refine ⟨⟨(sel_has k).2.1, (sel_has k).2.2⟩, ?_, ?_, ?_⟩
+    · intro hd
+      obtain ⟨e, he⟩ := err_of_done inv hd
+      exact Or.inl ⟨_, rSel_done_step hp hd he⟩
+    · intro hc; exact Or.inl ⟨_, rSel_deadline_step hp hc⟩
+    · intro j b n ci gw hj
+      obtain ⟨s', h'⟩ := data_enabled hp hj
+      exact Or.inr (Or.inl ⟨j, s', Or.inl h'⟩)
+  case rAck k acc nr fail chunk =>
+    obtain ⟨j, hj⟩ := inv.ackHs i (by simp [hp, PC.isAck])
+    obtain ⟨_, _, _, _, b, n, ci, _, h2, _⟩ := inv.hsOk i j hj
+    obtain ⟨s', h'⟩ := count_enabled hp h2
+    exact Or.inr (Or.inr ⟨j, s', Or.inl h'⟩)
+  case wLock b =>
+    cases hm : s.mu with
+    | none => exact Or.inl (Or.inl (wLock_enabled hp hm))
+    | some j =>
+      refine Or.inr ⟨j, ?_, rfl, inv.muLive j hm⟩
+      intro e; subst e
+      have := inv.muLive _ hm; simp [hp, PC.holds] at this
+  case wSel b n ci g =>
+    refine ⟨⟨wsel_has.2.1, wsel_has.2.2⟩, ?_, ?_, ?_⟩
+    · intro hd
+      obtain ⟨e, he⟩ := err_of_done inv hd
+      exact Or.inl ⟨_, wSel_done_step hp hd he⟩
+    · intro hc; exact Or.inl ⟨_, wSel_deadline_step hp hc⟩
+    · intro j k acc gr hj
+      obtain ⟨s', h'⟩ := data_enabled hj hp
+      exact Or.inr (Or.inl ⟨j, s', Or.inr h'⟩)
+  case wAwait b n ci =>
+    obtain ⟨j, hj⟩ := inv.awaitHs i (by simp [hp, PC.isAwait])
+    obtain ⟨k, acc, nr, fail, _, _, _, h1, _, _⟩ := inv.hsOk j i hj
+    obtain ⟨s', h'⟩ := count_enabled h1 hp
+    exact Or.inr (Or.inr ⟨j, s', Or.inr h'⟩)
+
+/-- NO DEADLOCK ONCE CLOSED: in a reachable state whose `done` is closed, as long as some thread is inside a
+call, some internal step is enabled (no combination of pending reads, writes, mutex waiters and hand-shakes
+is stuck). -/
+theorem no_deadlock_after_close {s : State} (r : Reachable s) (hd : s.done = true) (i : Nat)
+    (hc : match s.thr i with | .idle | .rRet .. | .wRet .. | .uRet .. => False | _ => True) :
+    ∃ j, CanMove s j := by
+  have h := no_stuck_state r i
+  cases hp : s.thr i <;> simp only [hp] at h hc <;> (try exact hc.elim) <;> (try exact ⟨i, h⟩)
+  case rSel => exact ⟨i, h.2.1 hd⟩
+  case wSel => exact ⟨i, h.2.1 hd⟩
+  case wLock b =>
+    rcases h with h | ⟨j, _, _, hj⟩
+    · exact ⟨i, h⟩
+    · have hj' := no_stuck_state r j
+      cases hq : s.thr j <;> simp only [hq, PC.holds] at hj hj' <;>
+        first
+          | exact ⟨j, hj'⟩
+          | exact ⟨j, hj'.2.1 hd⟩
+          | simp at hj
+
+/-! ### half-close, close-read, deadlines -/
+
+/-- HALF CLOSE: after `CloseWrite` won the once-error (`done` closed, error = EOF): a `Read` that starts now
+returns `(0, EOF)` — nothing but that; a `Read` blocked in its select can return `(0, EOF)`; a read already in
+the committed hand-shake still completes with its chunk (`no_stuck_state`, `fidelity`); `WriteTo` returns
+`(n, nil)`; and this state of the direction is permanent. The reverse direction is a separate transition
+system (`directions_independent`). -/
+theorem half_close {s : State} (_r : Reachable s) (h : closedAs s .eof) :
+    (∀ i cap acc, s.thr i = .rChk1 (.read cap) acc → localSteps s i = [s.setT i (.rRet acc .eof)]) ∧
+    (∀ i cap acc g, s.thr i = .rSel (.read cap) acc g → s.setT i (.rRet acc .eof) ∈ localSteps s i) ∧
+    (∀ i plan ff acc, s.thr i = .rChk1 (.wt plan ff) acc → localSteps s i = [s.setT i (.rRet acc .nil)]) ∧
+    (∀ s', Step s s' → closedAs s' .eof) := by
+  refine ⟨?_, ?_, ?_, fun s' st => closedAs_stable st h⟩
+  · intro i cap acc hp
+    unfold localSteps; simp [hp, h.1, withErr, h.2, RKind.closeErr, Err.toR]
+  · intro i cap acc g hp
+    have := rSel_done_step hp h.1 h.2
+    simpa [RKind.closeErr, Err.toR] using this
+  · intro i plan ff acc hp
+    unfold localSteps; simp [hp, h.1, withErr, h.2, RKind.closeErr, writeToCloseErr]
+
+/-- CLOSE READ FAILS WRITES: once the direction is closed (by `CloseRead`: ErrClosedPipe, or by the writer's
+own `CloseWrite`: EOF) a `Write` that starts returns `(0, ErrClosedPipe)`, a `Write` blocked in its select can
+return `(n, ErrClosedPipe)` with the count consumed so far, and `Read` at the closing end returns
+ErrClosedPipe after `CloseRead`. -/
+theorem close_read_fails_writes {s : State} (_r : Reachable s) (e : Err) (he : e = .closedPipe ∨ e = .eof)
+    (h : closedAs s e) :
+    (∀ i b, s.thr i = .wChk1 b → localSteps s i = [s.setT i (.wRet 0 .closedPipe none)]) ∧
+    (∀ i b n ci g, s.thr i = .wSel b n ci g →
+      { s with mu := none }.setT i (.wRet n .closedPipe (some ci)) ∈ localSteps s i) ∧
+    (e = .closedPipe → ∀ i cap acc, s.thr i = .rChk1 (.read cap) acc →
+      localSteps s i = [s.setT i (.rRet acc .closedPipe)]) := by
+  have hw : writeCloseErr e = .closedPipe := by rcases he with he | he <;> subst he <;> simp [writeCloseErr, Err.toR]
+  refine ⟨?_, ?_, ?_⟩
+  · intro i b hp
+    unfold localSteps; simp [hp, h.1, withErr, h.2, hw]
+  · intro i b n ci g hp
+    have := wSel_done_step hp h.1 h.2
+    rw [hw] at this; exact this
+  · intro hc i cap acc hp
+    subst hc
+    unfold localSteps; simp [hp, h.1, withErr, h.2, RKind.closeErr, Err.toR]
+
+/-- DEADLINE UNBLOCKS: whenever the current cancel channel of the read (write) deadline is closed — after
+`Set*Deadline(past)` or after the timer fired — EVERY read/writeTo (write) that sits in its select, whichever
+cancel channel it captured on entry, can return `os.ErrDeadlineExceeded` with the count so far; calls that
+start are refused by the pre-check unless the direction is closed (close errors take precedence). -/
+theorem deadline_unblocks {s : State} (r : Reachable s) :
+    (s.rdl.closed = true →
+      (∀ i k acc g, s.thr i = .rSel k acc g → s.setT i (.rRet acc .timeout) ∈ localSteps s i) ∧
+      (∀ i k acc, s.thr i = .rChk2 k acc → localSteps s i = [s.setT i (.rRet acc .timeout)])) ∧
+    (s.wdl.closed = true →
+      (∀ i b n ci g, s.thr i = .wSel b n ci g →
+        { s with mu := none }.setT i (.wRet n .timeout (some ci)) ∈ localSteps s i) ∧
+      (∀ i b, s.thr i = .wChk2 b → localSteps s i = [s.setT i (.wRet 0 .timeout none)])) := by
+  have inv := inv_reachable r
+  refine ⟨fun hc => ⟨?_, ?_⟩, fun hc => ⟨?_, ?_⟩⟩
+  · intro i k acc g hp
+    have hg := inv.gens i; simp only [hp, PC.gensOk] at hg
+    exact rSel_deadline_step hp (chanClosed_of_closed hg hc)
+  · intro i k acc hp
+    unfold localSteps; simp [hp, hc]
+  · intro i b n ci g hp
+    have hg := inv.gens i; simp only [hp, PC.gensOk] at hg
+    exact wSel_deadline_step hp (chanClosed_of_closed hg hc)
+  · intro i b hp
+    unfold localSteps; simp [hp, hc]
+
+/-- `pipeDeadline.set`: a past deadline closes the current channel; a zero or future deadline leaves an OPEN
+current channel (re-made if the old one was closed), so later calls are not refused; only an armed timer
+(future) can close it again. -/
+theorem deadline_set_semantics (d : DL) :
+    (d.set .past).closed = true ∧ (d.set .zero).closed = false ∧ (d.set .future).closed = false ∧
+    (d.set .zero).armed = false ∧ (d.set .past).armed = false ∧ (d.set .future).armed = true := by
+  cases hc : d.closed <;> simp [DL.set, hc]
+
+/-! ### the two directions -/
+
+/-- a pipe = two directions; a step of the pipe is a step of one of them -/
+structure Pipe where
+  ab : State
+  ba : State
+
+inductive PStep (p : Pipe) : Pipe → Prop where
+  | ab {s'} : Step p.ab s' → PStep p { p with ab := s' }
+  | ba {s'} : Step p.ba s' → PStep p { p with ba := s' }
+
+inductive PReachable : Pipe → Prop where
+  | init : PReachable ⟨init, init⟩
+  | step {p p'} : PReachable p → PStep p p' → PReachable p'
+
+/-- The directions share nothing (see `wiring_shapes`): whatever one direction does — including being closed —
+the other one is a reachable state of its own transition system, so every theorem above holds for it. -/
+theorem directions_independent {p : Pipe} (r : PReachable p) : Reachable p.ab ∧ Reachable p.ba := by
+  induction r with
+  | init => exact ⟨.init, .init⟩
+  | step _ st ih =>
+    cases st with
+    | ab h => exact ⟨.step ih.1 h, ih.2⟩
+    | ba h => exact ⟨ih.1, .step ih.2 h⟩
+
+/-! ### the hypotheses are satisfiable (concrete runs of the model, `SSV/Proofs/PipeExamples.lean`) -/
+
+/-- a run that transfers data: Write([1,2,3]) ‖ Read(cap 2): the read got [1,2], the write has consumed 2 so far
+and goes round its loop with [3] (hypotheses of `no_panic`, `fidelity`, `write_in_progress`, `atomic_writes`). -/
+example : Reachable Ex.w6 ∧ Ex.w6.rret = [1, 2] ∧ Ex.w6.wlog = [([1, 2, 3], 2)] ∧ (Ex.w6.thr 0).holds = true :=
+  ⟨Ex.w6_reachable, Ex.w6_facts.1, Ex.w6_facts.2.1, by decide⟩
+/-- …both sides in their selects (`no_stuck_state`: select cases), then in the committed hand-shake (`handshake_paired`) -/
+example : Ex.w4.thr 0 = .wSel [1, 2, 3] 0 0 0 ∧ Ex.w4.thr 1 = .rSel (.read 2) 0 0 := Ex.w4_in_selects
+example : Ex.w5.thr 1 = .rAck (.read 2) 0 2 false [1, 2] := Ex.w5_in_handshake.1
+/-- a returned write (`write_count`): run the example to the end with a second read -/
+example : ∃ s, Reachable s ∧ ∃ i n e ci, s.thr i = .wRet n e ci :=
+  ⟨Ex.step1 (Ex.startD Ex.c3 1 (.write [5])) 1,
+   Ex.reach_step1 (Ex.reach_start Ex.c3_reachable 1 _ (by decide)) 1 (by decide), 1, 0, .closedPipe, none, by decide⟩
+/-- closed by CloseWrite (`half_close`, `close_read_fails_writes`, `done_implies_error_stored`, `no_deadlock_after_close`) -/
+example : Reachable Ex.c3 ∧ closedAs Ex.c3 .eof := ⟨Ex.c3_reachable, Ex.c3_closed⟩
+/-- closed by CloseRead (`close_read_fails_writes`) -/
+example : Reachable Ex.r3 ∧ closedAs Ex.r3 .closedPipe := ⟨Ex.r3_reachable, Ex.r3_closed⟩
+/-- an expired read deadline with a reader blocked in its select, a writer in its select and another one queued on
+the mutex (`deadline_unblocks`, `no_stuck_state`: mutex case) -/
+example : Reachable Ex.d4 ∧ Ex.d4.rdl.closed = true ∧ Ex.d4.thr 1 = .rSel (.read 4) 0 0 ∧
+    Ex.d4.thr 3 = .wLock [8] ∧ Ex.d4.mu = some 0 :=
+  ⟨Ex.d4_reachable, Ex.d4_facts.1, Ex.d4_facts.2.1, Ex.d4_facts.2.2.2.1, Ex.d4_facts.2.2.2.2.1⟩
+example : PReachable ⟨init, init⟩ := .init
+
 end SSV.C15
 
 #print axioms SSV.C15.select_shapes
@@ -135,3 +343,10 @@ end SSV.C15
 #print axioms SSV.C15.write_in_progress
 #print axioms SSV.C15.atomic_writes
 #print axioms SSV.C15.handshake_paired
+#print axioms SSV.C15.no_stuck_state
+#print axioms SSV.C15.no_deadlock_after_close
+#print axioms SSV.C15.half_close
+#print axioms SSV.C15.close_read_fails_writes
+#print axioms SSV.C15.deadline_unblocks
+#print axioms SSV.C15.deadline_set_semantics
+#print axioms SSV.C15.directions_independent
